@@ -123,6 +123,14 @@ class DownloadOutputManager:
             },
         )
 
+    def write_immediately(self, fileobj, data, offset):
+        """Write data to the fileobj from the calling thread
+
+        This is used when it is known that only one thread is downloading
+        the object, so the io executor is not needed.
+        """
+        self.get_io_write_task(fileobj, data, offset)()
+
     def get_final_io_task(self):
         """Get the final io task to complete the download
 
@@ -239,6 +247,15 @@ class DownloadNonSeekableOutputManager(DownloadOutputManager):
                     fileobj,
                 )
                 super().queue_file_io_task(fileobj, data, offset)
+
+    def write_immediately(self, fileobj, data, offset):
+        # The stream cannot be rewound, so if the request is retried only
+        # the data that has not been written yet must be written.
+        with self._io_submit_lock:
+            for write in self._defer_queue.request_writes(offset, data):
+                self.get_io_write_task(
+                    fileobj, write['data'], write['offset']
+                )()
 
     def get_io_write_task(self, fileobj, data, offset):
         return IOStreamingWriteTask(
@@ -625,8 +642,7 @@ class ImmediatelyWriteIOGetObjectTask(GetObjectTask):
     """
 
     def _handle_io(self, download_output_manager, fileobj, chunk, index):
-        task = download_output_manager.get_io_write_task(fileobj, chunk, index)
-        task()
+        download_output_manager.write_immediately(fileobj, chunk, index)
 
 
 class IOWriteTask(Task):
